@@ -48,10 +48,10 @@ theorem eval_ite_of_nd {defs n g ρ c a b v} (h : ND (eval defs n g ρ c v).stop
 
 /-- the statement of `compile_yields` for one query `q` at fuel `n` -/
 def CYq (code : Code) (defs : Name → Q) (entry : Name → Nat) (nf n : Nat) (q : Q) : Prop :=
-  ∀ (g : Option Name) (e p : Nat), e ≤ p → Seg code p (compile entry g e p q) → q.Closed nf →
-    ∀ ρ v S F R fr o cp (P : Nat → Prop), TopIs fr e → scopeOf entry g ≤ e → (q.HasParam → ρ ≠ .none) →
+  ∀ (g : Ctx) (e p : Nat), e ≤ p → Seg code p (compile entry g e p q) → q.Closed nf (g.vars.map (·.1)) →
+    ∀ (ρ : Env) v S F R fr o cp (P : Nat → Prop), TopIs fr e → scopeOf entry g ≤ e → (q.HasParam → ρ.clo ≠ .none) →
       (∀ a, P a → a < base fr + (p - e)) →
-      EnvRel code entry nf P R fr (fr.length - 1) ρ g →
+      EnvOK code entry nf P R fr ρ g →
       base fr + (p + (compile entry g e p q).length - e) ≤ o → ND (eval defs n g ρ q v).stop →
       Yields code (Own (base fr) e p (compile entry g e p q).length) P o fr F (p + (compile entry g e p q).length) S
         (.run p (.v v :: S) F false none R fr o cp) (eval defs n g ρ q v).outs (eval defs n g ρ q v).stop.toErr
